@@ -70,9 +70,9 @@ func plans(tier string, tmpl []replica.Template, nBase int) []plan {
 			if tier != "thorough" && k%2 == 0 && k != len(c.Blocks) {
 				continue
 			}
-			out = append(out, plan{replica.Plan{Blocks: c.Blocks[:k], Tail: 0}, fmt.Sprintf("%s|export-after-block-%d", c.Name, k), false})
+			out = append(out, plan{replica.Plan{Blocks: c.Blocks[:k], Dts: c.Dts, Tail: 0}, fmt.Sprintf("%s|export-after-block-%d", c.Name, k), false})
 		}
-		out = append(out, plan{replica.Plan{Blocks: c.Blocks, Tail: 2}, c.Name, false})
+		out = append(out, plan{replica.Plan{Blocks: c.Blocks, Dts: c.Dts, Tail: 2}, c.Name, false})
 	}
 	if tier == "thorough" {
 		// rich states: a long chain of many templates
@@ -154,7 +154,7 @@ func Worker(shard, n int, tier string) *engine.Result {
 	res := engine.NewResult(Prop)
 	f := replica.NewFix()
 	base := append(replica.Templates(), replica.StateShapeTemplates()...)
-	tmpl := append(append([]replica.Template{}, base...), replica.GovTemplates()...)
+	tmpl := append(append(append([]replica.Template{}, base...), replica.GovTemplates()...), replica.ExtraGovTemplates()...)
 	ps := plans(tier, tmpl, len(base))
 	res.Extra["histories"] = len(ps)
 	for i, p := range ps {
